@@ -20,7 +20,12 @@ echo "== demo on the unchanged tree"; run_demo
 ( cd "$WT" && git apply "$OUT/patch.diff" ) && echo "== patch applied" || echo "== PATCH FAILED"
 echo "== demo with the change"; run_demo
 echo "== test-suite with the change"
-( cd "$WT" && PYTHONPATH="$WT/src" timeout 3000 /venv/bin/python -m pytest -q -p no:cacheprovider --timeout=900 --continue-on-collection-errors -k "not postgres" -x 2>&1 | tail -3 )
+( cd "$WT" && PYTHONPATH="$WT/src" timeout 3000 /venv/bin/python -m pytest -q -p no:cacheprovider --timeout=900 --continue-on-collection-errors -k "not postgres" -rf 2>&1 | grep -E "^FAILED|passed|failed" | tail -8 > /tmp/confirm/$SID.suite; cat /tmp/confirm/$SID.suite
+  # timing-sensitive threaded tests fail sporadically under load (also on the unchanged tree): re-run failures alone
+  for t in $(grep "^FAILED" /tmp/confirm/$SID.suite | awk '{print $2}'); do
+    echo "-- re-run of $t (3x):"
+    for i in 1 2 3; do PYTHONPATH="$WT/src" timeout 600 /venv/bin/python -m pytest -q -p no:cacheprovider --timeout=900 "$t" 2>&1 | tail -1; done
+  done )
 } > "$OUT/confirm.log" 2>&1
 git -C /repo worktree remove --force "$WT"
 python3 - "$OUT" "$PID" "$NEEDS" <<'PY'
